@@ -18,13 +18,19 @@
      session_client_auth.go         connectToInitialServer
 
    Part 1: atomic steps on the player state.
-   Part 2: sequential semantics of one history of operations (what the E2E harness runs), in two
-           variants: [impl] is the code as it is (a raw Connect that is refused as InProgress /
-           AlreadyConnected clears the in-flight slot: connect() calls resetInFlightConnection for every
-           unsuccessful status), [spec] is what the property demands (refusals have no side effects).
+   Baseline: /repo after the fix commits e5fee55 (C16-1: checkAndSetInFlight - the last check and
+   setInFlightConnection share one critical section) and 8f6edb6 (C16-2: connect() no longer calls
+   resetInFlightConnection after a refusal).
+   Part 2: sequential semantics of one history of operations (what the E2E harness runs).  [spec_run]
+           is what the property demands (refusals have no side effects), [impl_run] is today's code
+           (the same function: the repaired connect() has no reset any more), [prefix_run] is the code
+           BEFORE 8f6edb6 (a raw Connect refused as InProgress / AlreadyConnected cleared the in-flight
+           slot).
    Part 3: small-step request threads for Base/Conc.v (all schedules) and the step functions for
-           Base/Lin.v (concurrent histories), again as impl_ (check and set are separate critical
-           sections) and spec_ (one critical section).
+           Base/Lin.v (concurrent histories): spec_request (check and set in one critical section),
+           impl_request (today's code: two unlocked preliminary checkServer calls, then
+           checkAndSetInFlight), prefix_request (the code BEFORE e5fee55 / 8f6edb6: check and set in
+           separate critical sections, reset after a refusal).
    Executable definitions only; proofs are in Proofs/C16.v. *)
 From Coq Require Import List Arith Bool ZArith.
 Import ListNotations.
@@ -261,8 +267,9 @@ Definition observe (n : nat) (rs : list res) (s : st) : obs :=
         (map (fun x => count_srv x (opened s)) (seq 0 n))
         (alive s).
 
-(* [strict] = true: the specification (a refused request has no side effect);
-   false: the implementation (connect() resets the in-flight slot on every unsuccessful status). *)
+(* [strict] = true: a refused request has no side effect (the specification, and the code since
+   8f6edb6); false: the code before that fix (connect() reset the in-flight slot on every unsuccessful
+   status). *)
 Definition connect_raw (strict : bool) (e : env) (t : nat) (s : st) : st * res :=
   match check_server s t with
   | Some r => (if strict then s else set_flight None s, r)
@@ -330,6 +337,12 @@ Fixpoint run_ops (strict : bool) (e : env) (n : nat) (ops : list op) (s : st) : 
 Definition run (strict : bool) (e : env) (n : nat) (ops : list op) : list obs :=
   let s0 := login e init_st in
   observe n [RNone] s0 :: run_ops strict e n ops s0.
+
+Definition spec_run : env -> nat -> list op -> list obs := run true.
+(* today's code: connectionRequest.connect no longer touches the slot after a refusal *)
+Definition impl_run : env -> nat -> list op -> list obs := run true.
+(* the code before fix 8f6edb6 *)
+Definition prefix_run : env -> nat -> list op -> list obs := run false.
 
 (* ---------- the property's own predicates on observations ---------- *)
 
@@ -445,9 +458,9 @@ Definition history_ok (e : env) (n : nat) (ops : list op) (os : list obs) : bool
 (* ---------- Part 3: requests as threads of atomic actions (Base/Conc.v) ---------- *)
 
 (* Per request: a program counter and the request's local variables.
-   pc: 0 not started, 1 passed checkServer (implementation only), 2 in-flight slot taken and backend
-   dialled, 3 handleJoinGame took the existing connection, 4 finished, 5 refused - result known,
-   connect() has not yet run its reset (implementation only). *)
+   pc: 0 not started, 1 passed an unlocked checkServer (holds nothing yet), 2 in-flight slot taken and
+   backend dialled, 3 handleJoinGame took the existing connection, 4 finished, 5 refused - result
+   known, connect() has not yet run its reset (pre-fix code only). *)
 Record local := mkLocal {
   l_pc : nat;
   l_conn : option conn;        (* the connection of this request *)
@@ -464,26 +477,22 @@ Definition upd (k : nat) (x : local) (f : nat -> local) : nat -> local :=
 
 Definition act := cst -> cst * list (nat * res).
 
-(* checkServer; internalConnect calls it twice (before and after the pre-connect event) *)
+(* checkServer without taking the slot; internalConnect calls it twice (before and after the
+   pre-connect event).  A refusal ends the request (today's code: nothing else happens). *)
 Definition a_check (k t : nat) : act := fun c =>
   let pc := l_pc (c_loc c k) in
   if (pc =? 0) || (pc =? 1) then
     match check_server (c_st c) t with
-    | Some r => (mkCst (c_st c) (upd k (mkLocal 5 None None) (c_loc c)) (c_active c), [(k, r)])
+    | Some r => (mkCst (c_st c) (upd k (mkLocal 4 None None) (c_loc c)) (c_active c), [(k, r)])
     | None => (mkCst (c_st c) (upd k (mkLocal 1 None None) (c_loc c)) (c_active c), [])
     end
   else (c, []).
 
-(* setInFlightConnection + dial *)
-Definition a_set (k t : nat) : act := fun c =>
-  if l_pc (c_loc c k) =? 1 then
-    let '(s1, cn) := open_conn t (c_st c) in
-    (mkCst (set_flight (Some cn) s1) (upd k (mkLocal 2 (Some cn) None) (c_loc c)) (k :: c_active c), [])
-  else (c, []).
-
-(* the specification: checkServer and setInFlightConnection in one critical section *)
+(* checkAndSetInFlight (today's code) = the specification's admission: checkServer and
+   setInFlightConnection in one critical section, then the backend is dialled *)
 Definition a_check_set (k t : nat) : act := fun c =>
-  if l_pc (c_loc c k) =? 0 then
+  let pc := l_pc (c_loc c k) in
+  if (pc =? 0) || (pc =? 1) then
     match check_server (c_st c) t with
     | Some r => (mkCst (c_st c) (upd k (mkLocal 4 None None) (c_loc c)) (c_active c), [(k, r)])
     | None =>
@@ -492,8 +501,27 @@ Definition a_check_set (k t : nat) : act := fun c =>
     end
   else (c, []).
 
-(* the implementation: connect() resets the in-flight slot after a refusal *)
-Definition a_refused_reset (k : nat) : act := fun c =>
+(* ----- the code BEFORE the fixes ----- *)
+
+(* pre-fix checkServer: a refusal leaves the request at pc 5 (connect() will still run its reset) *)
+Definition prefix_check (k t : nat) : act := fun c =>
+  let pc := l_pc (c_loc c k) in
+  if (pc =? 0) || (pc =? 1) then
+    match check_server (c_st c) t with
+    | Some r => (mkCst (c_st c) (upd k (mkLocal 5 None None) (c_loc c)) (c_active c), [(k, r)])
+    | None => (mkCst (c_st c) (upd k (mkLocal 1 None None) (c_loc c)) (c_active c), [])
+    end
+  else (c, []).
+
+(* pre-fix setInFlightConnection (its own critical section, no check) + dial *)
+Definition prefix_set (k t : nat) : act := fun c =>
+  if l_pc (c_loc c k) =? 1 then
+    let '(s1, cn) := open_conn t (c_st c) in
+    (mkCst (set_flight (Some cn) s1) (upd k (mkLocal 2 (Some cn) None) (c_loc c)) (k :: c_active c), [])
+  else (c, []).
+
+(* pre-fix connect(): resetInFlightConnection after a refusal *)
+Definition prefix_refused_reset (k : nat) : act := fun c =>
   if l_pc (c_loc c k) =? 5 then
     (mkCst (set_flight None (c_st c)) (upd k (mkLocal 4 None None) (c_loc c)) (c_active c), [])
   else (c, []).
@@ -523,10 +551,14 @@ Definition a_join2 (k : nat) : act := fun c =>
   else (c, []).
 
 (* one Connect(t) request against a healthy backend, client family A *)
-Definition impl_request (k t : nat) : list act :=
-  [a_check k t; a_check k t; a_set k t; a_refused_reset k; a_join1 k; a_join2 k].
 Definition spec_request (k t : nat) : list act :=
   [a_check_set k t; a_join1 k; a_join2 k].
+(* today's code: checkServer, event, checkServer, checkAndSetInFlight, ... *)
+Definition impl_request (k t : nat) : list act :=
+  [a_check k t; a_check k t; a_check_set k t; a_join1 k; a_join2 k].
+(* the code before e5fee55 / 8f6edb6 *)
+Definition prefix_request (k t : nat) : list act :=
+  [prefix_check k t; prefix_check k t; prefix_set k t; prefix_refused_reset k; a_join1 k; a_join2 k].
 
 Fixpoint requests (mk : nat -> nat -> list act) (k : nat) (ts : list nat) : list (list act) :=
   match ts with
